@@ -866,7 +866,15 @@ func c16Compile(c *Ctx, pool *Pool, i int, thorough bool) error {
 		sets = append(sets, []string{t})
 	}
 	sets = append(sets, AllTargets)
-	for k := 0; k < 3; k++ {
+	degenerate := i%10 == 7
+	if degenerate {
+		// no packet at all: lua, python and c++ need a root packet, the others do not
+		prog = GenDegenerate(seed)
+		text = prog.Render()
+		sets = [][]string{{"rust"}, {"go"}, {"java"}, {"rust", "go"}, {"rust", "go", "java"}}
+		c.ev.Fire("degenerate_program", 1)
+	}
+	for k := 0; k < 3 && !degenerate; k++ {
 		var ts []string
 		for _, t := range AllTargets {
 			if r.Chance(1, 2) {
@@ -974,6 +982,18 @@ func c16Compile(c *Ctx, pool *Pool, i int, thorough bool) error {
 		}
 		if shared {
 			c.ev.Fire("disk0_shared_output_dir", 1)
+		}
+		if !shared && !cc.nested && len(ts) >= 2 && r.Chance(1, 5) {
+			// sibling directories whose names are string prefixes of one another,
+			// the longer name on the earlier target: gen_x_x, gen_x, gen
+			base := r.Pick([]string{"gen", "out", "build/o"})
+			sep := r.Pick([]string{"_rs", "-x", "2", "x"})
+			for k, t := range ts {
+				cc.dirs[t] = base + strings.Repeat(sep, len(ts)-1-k)
+				delete(cc.spell, t)
+			}
+			links = nil
+			c.ev.Fire("disk0_prefix_sibling_dirs", 1)
 		}
 		// timestamps: the DSL may be older or newer than what is already in the output directories
 		staleKind := r.Intn(5)
